@@ -50,7 +50,7 @@ theorem leaveState_nohooks (env : Env) (e : Ev) (b : Bool) (hp : env.pending = [
   split
   · rw [handleHooks_nil _ _ _ (by rw [hs.1]; exact hp)]
     simp only [Nat.lt_irrefl, ↓reduceIte]
-    refine ⟨?_, ?_, trivial⟩ <;> split <;> simp [hs.1, hs.2, hp]
+    refine ⟨?_, ?_, trivial⟩ <;> split <;> simp [hs.1, hp]
   · rw [handleHooks_nil _ _ _ hp]
     simp only [Nat.lt_irrefl, ↓reduceIte]
     refine ⟨?_, ?_, trivial⟩ <;> split <;> simp [hp]
